@@ -538,6 +538,66 @@ func runC15(c *ev.Ctx) {
 			c.Sample(map[string]interface{}{"bytes": cs.Seq.String(), "result": "all entry points, registry runners and rounds agree bit for bit"})
 		}
 	})
+	// heavy hitters: one pattern occurring 2^14 .. 2^17 (+-1) times next to an even spread of all byte values, so
+	// that a narrow counter on the byte path (uint16 tables) wraps to a histogram the bit path does not see;
+	// an all-zero input cannot show it (P = 0 on both paths), the spread makes the two histograms differ
+	{
+		var hh int64
+		for hi, cnt := range []int{16384, 32768, 65535, 65536, 65537, 131072} {
+			for _, hv := range []byte{0x00, 0xFF, 0xA5} {
+				for _, spread := range []int{0, 232} {
+					if spread == 0 && cnt != 65536 {
+						continue
+					}
+					data := make([]byte, 0, cnt+256*spread)
+					for v := 0; v < 256; v++ {
+						for k := 0; k < spread; k++ {
+							data = append(data, byte(v))
+						}
+					}
+					for k := 0; k < cnt; k++ {
+						data = append(data, hv)
+					}
+					hr := gen.NewRng(gen.Mix(seed, 1515, uint64(hi), uint64(hv)))
+					for i := len(data) - 1; i > 0; i-- {
+						j := hr.Intn(i + 1)
+						data[i], data[j] = data[j], data[i]
+					}
+					bits := gen.Bools(gen.Unpack(data))
+					what := fmt.Sprintf("heavy:%d x 0x%02x + %d x each byte value, shuffled", cnt, hv, spread)
+					type two struct {
+						name string
+						a, b func() (float64, float64)
+					}
+					var ts []two
+					for _, m := range []int{2, 4, 8} {
+						m := m
+						ts = append(ts, two{fmt.Sprintf("PokerTestBytes(m=%d)", m), func() (float64, float64) { return R.PokerTestBytes(data, m) }, func() (float64, float64) { return R.PokerProto(bits, m) }})
+					}
+					for _, m := range []int{2, 5} {
+						m := m
+						ts = append(ts, two{fmt.Sprintf("ApproximateEntropyTestBytes(m=%d)", m), func() (float64, float64) { return R.ApproximateEntropyTestBytes(data, m) }, func() (float64, float64) { return R.ApproximateEntropyProto(bits, m) }})
+					}
+					ts = append(ts, two{"FrequencyWithinBlockTestBytes(m=10)", func() (float64, float64) { return R.FrequencyWithinBlockTestBytes(data, 10) }, func() (float64, float64) { return R.FrequencyWithinBlockProto(bits, 10) }})
+					ts = append(ts, two{"RunsDistributionTestBytes", func() (float64, float64) { return R.RunsDistributionTestBytes(data) }, func() (float64, float64) { return R.RunsDistributionTest(bits) }})
+					ts = append(ts, two{"MonoBitFrequencyTestBytes", func() (float64, float64) { return R.MonoBitFrequencyTestBytes(data) }, func() (float64, float64) { return R.MonoBitFrequencyTest(bits) }})
+					for _, t := range ts {
+						var pa, qa, pb, qb float64
+						if p, m := guard(func() { pa, qa = t.a(); pb, qb = t.b() }); p {
+							c.Violation("entrypoints:"+what+":"+t.name+":panic", m, "heavy", what)
+							continue
+						}
+						hh++
+						if !same2(pa, qa, pb, qb) {
+							c.Violation("entrypoints:"+what+":"+t.name, fmt.Sprintf("%s: bytes [%v %v] vs bits [%v %v]", t.name, pa, qa, pb, qb), "heavy", what)
+						}
+					}
+					c.Eval(ev.HashStr(what), true)
+				}
+			}
+		}
+		c.Count("heavy_hitter_comparisons", hh)
+	}
 	// file loader
 	dir := os.Getenv("VERIF_WORK")
 	if dir == "" {
